@@ -4,6 +4,7 @@ import (
 	"encoding/json"
 	"fmt"
 
+	"github.com/ulikunitz/lz"
 	"verif/mc/engine"
 )
 
@@ -24,6 +25,23 @@ func decConfigs(tier string) []DecConfig {
 	}
 	// Init on a DecoderBuffer that already owns a larger slice raises BufferSize lazily
 	out = append(out, DecConfig{W: 2, B: 3, PreCap: 8}, DecConfig{W: 3, B: 4, PreCap: 5})
+	// every other small (WindowSize, BufferSize) pair that Init ACCEPTS on the tree under test (on the pinned
+	// tree there is none: WindowSize < BufferSize is required; a relaxed Verify brings its configurations in)
+	have := map[[2]int]bool{}
+	for _, c := range out {
+		have[[2]int{c.W, c.B}] = true
+	}
+	for b := 1; b <= 4; b++ {
+		for w := 1; w <= 5; w++ {
+			if have[[2]int{w, b}] {
+				continue
+			}
+			var probe lz.DecoderBuffer
+			if probe.Init(lz.DecoderConfig{WindowSize: w, BufferSize: b}) == nil {
+				out = append(out, DecConfig{W: w, B: b})
+			}
+		}
+	}
 	return out
 }
 
